@@ -308,5 +308,5 @@ func writeEvidenceB(p *plan, tier string, base uint64, sum *bSummary, perStage m
 	}
 	b, _ := json.MarshalIndent(ev, "", " ")
 	os.MkdirAll(filepath.Join(verifDir, "evidence"), 0755)
-	os.WriteFile(filepath.Join(verifDir, "evidence", p.ID+".json"), b, 0644)
+	os.WriteFile(filepath.Join(verifDir, "evidence", evName(p)+".json"), b, 0644)
 }
